@@ -7,13 +7,19 @@ d="$(mktemp -d /tmp/tryseed_XXXX)"
 git -C /repo worktree add -q --detach "$d/w" HEAD || exit 2
 cleanup() { git -C /repo worktree remove --force "$d/w" 2>/dev/null; rm -rf "$d"; }
 trap cleanup EXIT
+# demonstrations written by a seeding agent assert that chempy is imported from *their* worktree: run them there
+# (SEED_WT=<that worktree>, clean before and after); otherwise in the scratch worktree
+dw="${SEED_WT:-$d/w}"
 if [ "$demo" != "-" ]; then
   demo="$(readlink -f "$demo")"
-  (cd "$d/w" && PYTHONPATH="$d/w" PYTHONDONTWRITEBYTECODE=1 /venv/bin/python "$demo" >/dev/null 2>&1); echo "demo on original: exit $?"
+  git -C "$dw" checkout -q -- . 2>/dev/null
+  (cd "$dw" && PYTHONPATH="$dw" PYTHONDONTWRITEBYTECODE=1 /venv/bin/python "$demo" >/dev/null 2>&1); echo "demo on original: exit $?"
 fi
 git -C "$d/w" apply "$patch" || { echo "PATCH DOES NOT APPLY"; exit 2; }
 if [ "$demo" != "-" ]; then
-  (cd "$d/w" && PYTHONPATH="$d/w" PYTHONDONTWRITEBYTECODE=1 /venv/bin/python "$demo" >/dev/null 2>&1); echo "demo with change: exit $?"
+  [ "$dw" != "$d/w" ] && git -C "$dw" apply "$patch"
+  (cd "$dw" && PYTHONPATH="$dw" PYTHONDONTWRITEBYTECODE=1 /venv/bin/python "$demo" >/dev/null 2>&1); echo "demo with change: exit $?"
+  [ "$dw" != "$d/w" ] && git -C "$dw" checkout -q -- .
 fi
 if [ -z "$SKIP_SUITE" ]; then "$(dirname "$0")/baseline_check.py" "$d/w" 2>&1 | grep -v conda; fi
 for id in "$@"; do
